@@ -1,5 +1,5 @@
 """C14 parallel.MapIterator/MapStream keep order, bound the buffer, never deadlock (spec/parallel)."""
-from common import mc
+from common import mc, mc_must_fail
 from bubblecommon import bubble_tv
 
 
@@ -18,3 +18,8 @@ def design(ctx):
     #    gap bound, no result beyond a failure, error provenance, End completeness, source closed once, no stuck call
     for cfg in ("mc_ms.cfg", "mc_ms_src.cfg", "mc_ms_b1.cfg") + (() if ctx.quick() else ("mc_ms_p3.cfg",)):
         mc(ctx, "parallel", "MapStream", cfg, "MapStream I-layer " + cfg, coverage=False)
+    # MapIterator: dispatcher + condition variable + workers + consumer; deadlock checking is on, so no interleaving
+    # of finishing calls and consumer pace may block the pipeline; a wrong Signal threshold must deadlock (teeth)
+    for cfg in ("mi_a.cfg", "mi_b.cfg", "mi_c.cfg") + (() if ctx.quick() else ("mi_d.cfg",)):
+        mc(ctx, "parallel", "MapIterator", cfg, "MapIterator I-layer " + cfg, coverage=False)
+    mc_must_fail(ctx, "parallel", "MapIterator", "mi_bad.cfg", "MapIterator signalling at the wrong threshold", expect="deadlock")
